@@ -43,15 +43,21 @@ def main():
     if sel:
         metas = [m for m in metas if m['id'] in sel or m['property'] in sel]
     bad = 0
+    results = {}
     with ThreadPoolExecutor(max_workers=int(os.environ.get('MUT_JOBS', '6'))) as ex:
         for meta, verdict, detail in ex.map(run_one, metas):
             print('MUTANT %-28s %-4s %-8s %s' % (meta['id'], meta['property'], meta['expect_rule'], verdict))
+            results[meta['id']] = {'property': meta['property'], 'rule': meta['expect_rule'],
+                                   'kind': meta.get('kind', 'breaking'), 'verdict': verdict.split('(')[0],
+                                   'note': meta.get('note', '')}
             if not verdict.startswith(('KILLED', 'SILENT-OK')):
                 bad += 1
                 print('   ' + detail.replace('\n', '\n   '))
             elif os.environ.get('MUT_VERBOSE'):
                 print('   ' + detail)
     print('%d mutants, %d not as expected' % (len(metas), bad))
+    if not sel:
+        json.dump(results, open(os.path.join(HERE, 'mutants', 'RESULTS.json'), 'w'), indent=1, sort_keys=True)
     return 1 if bad else 0
 
 if __name__ == '__main__':
